@@ -1051,9 +1051,9 @@ fn enum_base(kind: Kind, alg: Alg, edns: bool, mutation: Mutation) -> Case {
 }
 
 pub fn check() -> Option<Check> {
-    let mutations = prop("request_mutations", 40_000, 2_000_000, any_case, body);
-    let complete = prop("unmodified_requests", 3_000, 100_000, unmodified_case, body);
-    let configured = prop("configured_from_files", 4_000, 100_000, configured_case, body);
+    let mutations = prop("request_mutations", 160_000, 2_000_000, any_case, body);
+    let complete = prop("unmodified_requests", 12_000, 100_000, unmodified_case, body);
+    let configured = prop("configured_from_files", 12_000, 100_000, configured_case, body);
     // every single-bit flip of the whole request, for each kind x algorithm (EDNS on for SHA-256)
     let flips = enumerate(
         "every_request_bit_flip",
